@@ -599,7 +599,8 @@ class ValueOps:
             raise Unsupported('attribute %s not in schema of %s' % (attr, ','.join(classes)), node)
         arr = st.heap_arr(attr)
         if getattr(self, 'read_log', None) is not None:
-            self.read_log.add(attr)
+            for f in self.families_of(classes):
+                self.read_log.add('%s@%s' % (attr, f))
         t = mk_select(arr, obj.term)
         sv = self.unbox(t, ty)
         if arr == st.decls.base_heap.get(attr) and getattr(self, 'alloc0', None) is not None:
@@ -610,10 +611,13 @@ class ValueOps:
                     st.assume(mk_implies(is_tag(k, t), mk_lt("(%s %s)" % (sel, t), self.alloc0)), 'wf')
         return sv
 
+    def families_of(self, classes):
+        return sorted({self.repo.family(c) for c in classes})
+
     def write_attr(self, obj, attr, val):
         st = self.st
         st.heap[attr] = mk_store(st.heap_arr(attr), obj.term, self.box(val))
-        st.bump(attr)
+        st.bump(attr, self.families_of(self.ref_classes(obj.ty)))
 
     # dict heap
     def dict_heaps(self):
